@@ -81,6 +81,11 @@ TRANSLATION TABLE (Python → Lean)
   if (x := obj.attr) is None: A (returns); rest              match obj__attr with | none => A | some x => rest   (in rest `obj.attr` reads as x
                                         until it is assigned);  self.m(..) inside a function with `self.` state attrs is called on
                                         { self with attr := current value, … };  registry `ret`: declared type of `return None` / `return []`
+  x = self.m(args), m translated before and raising (no state)     match (m self args) with | .error e => (.error e, state…) | .ok x => rest
+  self.m(obj, args) / super().m(obj, args) as a statement, m translated before with the SAME state attrs as the caller (registry may_raise
+                                        if it raises): let (state…) := m {self with current state} {obj with current attrs} args   (an
+                                        error is propagated with the tables m left); a callee with another self record gets it rebuilt from
+                                        the equally named fields; `super().m` inside `m` = the `m` translated before (resolution order)
 NOT in the subset: floats, strings (except in `raise`), dict values, sets, slices, list indexing, nested defs, lambda,
 try/with, while without fuel, *args/**kwargs, walrus, global state, division by 0.
 """
@@ -632,6 +637,10 @@ class Translator:
 
     def g_assign(self, s, env, k):
         tg = s.targets[0]
+        if isinstance(tg, ast.Name) and isinstance(s.value, ast.Call):
+            r = self.g_call_raising(tg, s.value, env, k)
+            if r is not None:
+                return r
         if isinstance(tg, ast.Name):
             for key in [x for x in env if x.startswith("#narrow:") and env[x] == tg.id]:
                 env.pop(key)
@@ -651,6 +660,9 @@ class Translator:
         return None
 
     def g_callstmt(self, c, env, k):
+        r = self.g_call_mutator(c, env, k)
+        if r is not None:
+            return r
         if not isinstance(c.func, ast.Attribute) or c.keywords or len(c.args) != 1:
             return None
         meth, obj = c.func.attr, c.func.value
@@ -674,6 +686,78 @@ class Translator:
                     _ind(self.let(self.v(d), f"Py.set2 {cell[0]} {cell[1]} {cell[2]} ({cur}.erase {x})") + k(env)) + \
                     [") else (", "  " + self.wrap_ret(None, error="Value"), ")"]
         return None
+
+    def g_self_for(self, env, gfn):
+        """`self` as the callee's record: the caller's own record (with the current state), or — another record type — rebuilt
+        from the fields of the same name"""
+        if gfn.self_rec == self.fn.self_rec:
+            return self.self_now(env, gfn)
+        mine, theirs = self.recs[self.fn.self_rec].fields, self.recs[gfn.self_rec].fields
+        if any(f not in mine or mine[f] != t for f, t in theirs.items()):
+            self.bad(None, f"call of `{gfn.qualname}` on a record without the fields of {gfn.self_rec}")
+        cur = {a[5:]: self.v(a) for a in self.fn.state if a.startswith("self.") and a in env}
+        return "({ " + ", ".join(f"{f} := {cur.get(f, 'self.' + f)}" for f in theirs) + f" }} : {gfn.self_rec})"
+
+    def g_callee(self, c):
+        """the group function a call `self.m(..)` / `super().m(..)` resolves to (the methods are registered in resolution order:
+        `super().m` inside `m` is the `m` translated before), else None"""
+        f = c.func
+        if not isinstance(f, ast.Attribute) or c.keywords:
+            return None
+        via_self = isinstance(f.value, ast.Name) and f.value.id == "self"
+        via_super = isinstance(f.value, ast.Call) and isinstance(f.value.func, ast.Name) and f.value.func.id == "super" \
+            and not f.value.args and f.attr == self.fn.qualname.split(".")[-1]
+        if (via_self or via_super) and f.attr in self.group and self.group[f.attr][0].self_rec:
+            return self.group[f.attr]
+        return None
+
+    def g_call_raising(self, tg, c, env, k):
+        """`x = self.m(args)` where m (translated before, no state) can raise: the error is propagated"""
+        cal = self.g_callee(c)
+        if cal is None or cal[0].state or not cal[1] or cal[1][0] != "E":
+            return None
+        gfn, rty = cal
+        if not self.can_raise:
+            self.bad(c, f"`{gfn.qualname}` can raise: the registry must say may_raise")
+        args = [self.expr(a, env)[0] for a in c.args]
+        call = " ".join([gfn.name, self.g_self_for(env, gfn), *args])
+        env = dict(env)
+        for key in [x for x in env if x.startswith("#narrow:") and env[x] == tg.id]:
+            env.pop(key)
+        env[tg.id] = rty[1]
+        return [f"match ({call}) with", f"| .error err_ => {self.wrap_err('err_')}", f"| .ok {self.v(tg.id)} => ("] + _ind(k(env)) + [")"]
+
+    def wrap_err(self, var):
+        vals = [f".error {var}"] + [self.v(o) for o in self.outs]
+        return vals[0] if len(vals) == 1 else "(" + ", ".join(vals) + ")"
+
+    def g_call_mutator(self, c, env, k):
+        """`self.m(obj, args)` / `super().m(obj, args)` as a statement, m a state-changing function translated before: it is handed
+        the current state and its result tables become the caller's (the caller must declare the same state attributes)"""
+        cal = self.g_callee(c)
+        if cal is None or not cal[0].state:
+            return None
+        gfn, rty = cal
+        if list(gfn.state) != list(self.fn.state) or gfn.effects or gfn.snapshot or self.fn.effects or self.fn.snapshot:
+            self.bad(c, f"`{gfn.qualname}` changes other state than the caller declares")
+        args = []
+        for a in c.args:
+            t, ty = self.expr(a, env)
+            if ty and ty[0] == "R" and isinstance(a, ast.Name):
+                cur = [(x.split(".", 1)[1], self.v(x)) for x in self.fn.state if x.startswith(a.id + ".") and x in env]
+                if cur:
+                    t = "{ " + t + " with " + ", ".join(f"{f} := {v}" for f, v in cur) + " }"
+            args.append(t)
+        call = " ".join([gfn.name, self.g_self_for(env, gfn), *args])
+        outs = [self.v(o) for o in self.fn.state]
+        env = {x: y for x, y in env.items() if not x.startswith("#narrow:")}
+        raising = bool(rty) and rty[0] == "T" and isinstance(rty[1], tuple) and rty[1][0] == "E"
+        if not raising:
+            return [f"let ({', '.join(outs)}) := {call}"] + k(env)
+        if not self.can_raise:
+            self.bad(c, f"`{gfn.qualname}` can raise: the registry must say may_raise")
+        return [f"let (res_, {', '.join(outs)}) := {call}", "match res_ with", f"| .error err_ => {self.wrap_err('err_')}",
+                "| .ok _ => ("] + _ind(k(env)) + [")"]
 
     def g_walrus_ok(self, node):
         """ids of the walrus expressions in the one supported shape: `if (x := obj.attr) is None: <returns>`"""
